@@ -308,6 +308,16 @@ class FnWorld:
                     pos = [self.vals[i] for i in op[1]]
                     kw = {f"n{n}": self.vals[i] for n, i in op[2]}
                     f = ov.dispatch
+                    if len(out) % 3 == 0:
+                        # read-only introspection between calls (inspect.signature, what help() and a
+                        # Callable[...]-annotated parameter read): no change of the method set, so nothing may be
+                        # rebuilt or resolved again because of it
+                        try:
+                            import inspect as _inspect
+
+                            str(_inspect.signature(f))
+                        except Exception:  # noqa
+                            pass
                     if sc["defs"][0].get("isMethod"):
                         r = f(selfobj, *pos, **kw)
                     else:
